@@ -47,6 +47,11 @@ func Payload(v reflect.Value) reflect.Value {
 	panic("not a wrapper")
 }
 
+var (
+	minNsTime = time.Unix(0, math.MinInt64).UTC()
+	maxNsTime = time.Unix(0, math.MaxInt64).UTC()
+)
+
 func IsNullWrapper(t reflect.Type) bool {
 	return t == NullIntT || t == NullBoolT || t == NullFloatT || t == NullStringT || t == NullTimeT
 }
@@ -160,8 +165,8 @@ func toDatum(s *ref.Schema, v reflect.Value, omit bool, emptyIsNull bool) (ref.D
 			isNull = !v.FieldByName("Valid").Bool()
 		case t == TimeT:
 			isNull = v.Interface().(time.Time).IsZero()
-		case t.Kind() == reflect.Struct:
-			isNull = false // like encoding/json, omitempty never omits a struct
+		case t.Kind() == reflect.Struct, t.Kind() == reflect.Array:
+			isNull = false // like encoding/json, omitempty never omits a struct or a (non-empty) array
 		default:
 			isNull = omit && v.IsZero()
 			if omit && (t.Kind() == reflect.Slice || t.Kind() == reflect.Map) && v.Len() == 0 {
@@ -216,6 +221,10 @@ func toDatum(s *ref.Schema, v reflect.Value, omit bool, emptyIsNull bool) (ref.D
 				}
 				i = floorDiv(tm.Unix(), 86400)
 			} else {
+				if tm.Before(minNsTime) || tm.After(maxNsTime) {
+					// the library's long time codecs are specified for instants representable in int64 nanoseconds
+					return ref.Datum{}, &Unsupported{"time outside the int64-nanosecond range under a long schema"}
+				}
 				switch s.Logical {
 				case "timestamp-millis":
 					i = tm.UnixMilli()
